@@ -203,6 +203,23 @@ func runCase(env *vlib.Env, idx int, rep *vlib.Reporter) {
 		}
 		eids = append(eids, e)
 	}
+	// the same trigger (prefix, sender, definition: the identity does not contain the keyper set)
+	// registered for a second keyper set, with a firing/expiry history of its own
+	for i := 0; i < 2; i++ {
+		if r.Chance(1, 2) {
+			src := eids[r.Intn(6)]
+			other := sets[r.Intn(3)]
+			if other == src.set {
+				continue
+			}
+			e := &eventID{set: other, identity: src.identity, prefix: src.prefix, sender: src.sender, expiry: int64(2 + r.Intn(10))}
+			if r.Chance(1, 2) {
+				e.firedAt = 1 + int64(r.Intn(int(e.expiry)))
+			}
+			eids = append(eids, e)
+			rep.Obs("trigger_identities_registered_for_two_sets", 1)
+		}
+	}
 	sq := servicedb.New(node.Pool)
 	insertTime := func(id *timeID, block int64) {
 		_, err := sq.InsertIdentityRegisteredEvent(ctx, servicedb.InsertIdentityRegisteredEventParams{BlockNumber: block, BlockHash: []byte{1}, TxIndex: 0, LogIndex: 0, Eon: id.set.cfg,
@@ -457,76 +474,123 @@ func judge(tr *epochkghandler.DecryptionTrigger, snap *pgmem.Snapshot, sets []*s
 	rowsT := snap.Rows("identity_registered_event")
 	rowsE := snap.Rows("event_trigger_registered_event")
 	rowsF := snap.Rows("fired_triggers")
-	var setOfTrigger *setInfo
+	setByCfg := func(cfg int64) *setInfo {
+		for _, si := range sets {
+			if si.cfg == cfg {
+				return si
+			}
+		}
+		return nil
+	}
+	// An identity may be registered for several keyper sets (the identity does not contain the set).
+	// reasons[i][set] is "" if identity i may be triggered for that set now, else why not.
 	kind := ""
-	for _, x := range tr.IdentityPreimages {
-		var s *setInfo
-		ok := false
-		// time based?
+	reasons := make([]map[*setInfo]string, len(tr.IdentityPreimages))
+	for i, x := range tr.IdentityPreimages {
+		reasons[i] = map[*setInfo]string{}
+		note := func(s *setInfo, k, why string) {
+			if s == nil {
+				return
+			}
+			if why == "" {
+				switch {
+				case !s.member:
+					why = k + ":not-a-member-of-the-set"
+				case !s.healthy():
+					why = k + ":dkg-not-succeeded:" + s.state
+				}
+			}
+			if prev, seen := reasons[i][s]; !seen || prev != "" {
+				reasons[i][s] = why
+				if why == "" {
+					kind = k
+				}
+			}
+		}
 		for _, row := range rowsT {
-			if bytes.Equal(row["identity"].([]byte), x) {
-				for _, si := range sets {
-					if si.cfg == row["eon"].(int64) {
-						s = si
-					}
-				}
-				if row["decrypted"].(bool) {
-					return "time:already-decrypted"
-				}
-				if !(uint64(row["timestamp"].(int64)) < b.Header.Time) { // the registered release time is unsigned
-					return "time:before-release-time"
-				}
-				if s != nil && s.activation > int64(b.Number()) {
-					return "time:before-activation-block"
-				}
-				ok, kind = true, "time"
+			if !bytes.Equal(row["identity"].([]byte), x) {
+				continue
+			}
+			s := setByCfg(row["eon"].(int64))
+			switch {
+			case row["decrypted"].(bool):
+				note(s, "time", "time:already-decrypted")
+			case !(uint64(row["timestamp"].(int64)) < b.Header.Time): // the registered release time is unsigned
+				note(s, "time", "time:before-release-time")
+			case s != nil && s.activation > int64(b.Number()):
+				note(s, "time", "time:before-activation-block")
+			default:
+				note(s, "time", "")
 			}
 		}
-		if !ok {
-			for _, row := range rowsE {
-				if bytes.Equal(row["identity"].([]byte), x) {
-					for _, si := range sets {
-						if si.cfg == row["eon"].(int64) {
-							s = si
-						}
+		for _, row := range rowsE {
+			if !bytes.Equal(row["identity"].([]byte), x) {
+				continue
+			}
+			s := setByCfg(row["eon"].(int64))
+			if row["decrypted"].(bool) {
+				note(s, "event", "event:already-decrypted")
+				continue
+			}
+			why := "event:not-fired"
+			for _, f := range rowsF {
+				if f["eon"].(int64) == row["eon"].(int64) && bytes.Equal(f["identity"].([]byte), x) {
+					why = ""
+					if f["block_number"].(int64) > row["expiration_block_number"].(int64) {
+						why = "event:log-after-expiry"
 					}
-					if row["decrypted"].(bool) {
-						return "event:already-decrypted"
-					}
-					fired := false
-					for _, f := range rowsF {
-						if f["eon"].(int64) == row["eon"].(int64) && bytes.Equal(f["identity"].([]byte), x) {
-							fired = true
-							if f["block_number"].(int64) > row["expiration_block_number"].(int64) {
-								return "event:log-after-expiry"
-							}
-						}
-					}
-					if !fired {
-						return "event:not-fired"
-					}
-					ok, kind = true, "event"
 				}
 			}
+			note(s, "event", why)
 		}
-		if !ok || s == nil {
+		if len(reasons[i]) == 0 {
 			return "unknown-identity"
 		}
-		if !s.member {
-			return kind + ":not-a-member-of-the-set"
-		}
-		if !s.healthy() {
-			return kind + ":dkg-not-succeeded:" + s.state
-		}
-		if setOfTrigger != nil && setOfTrigger != s {
-			return "identities-of-different-sets-in-one-trigger"
-		}
-		setOfTrigger = s
 	}
-	if int64(tr.BlockNumber) != setOfTrigger.activation {
+	// the trigger is justified if one set (identified by its activation block) justifies every identity
+	var sameBlock []*setInfo
+	for _, si := range sets {
+		if int64(tr.BlockNumber) == si.activation {
+			sameBlock = append(sameBlock, si)
+		}
+	}
+	for _, si := range sameBlock {
+		all := true
+		for i := range reasons {
+			if why, ok := reasons[i][si]; !ok || why != "" {
+				all = false
+			}
+		}
+		if all {
+			rep.Obs("triggers_"+kind, 1)
+			return ""
+		}
+	}
+	// not justified: name the most specific reason
+	for i := range reasons {
+		for _, si := range sameBlock {
+			if why, ok := reasons[i][si]; ok && why != "" {
+				return why
+			}
+		}
+	}
+	for i := range reasons {
+		okSomewhere := false
+		for _, why := range reasons[i] {
+			if why == "" {
+				okSomewhere = true
+			}
+		}
+		if !okSomewhere {
+			for _, why := range reasons[i] {
+				return why
+			}
+		}
+	}
+	if len(sameBlock) == 0 {
 		return "trigger-block-is-not-the-sets-activation-block"
 	}
-	rep.Obs("triggers_"+kind, 1)
-	_ = sort.Strings
-	return ""
+	return "identities-of-different-sets-in-one-trigger"
 }
+
+var _ = sort.Strings
